@@ -7,9 +7,11 @@ EXPLANATION = ("T1 path-sensitive extraction of LdapResultExt::from: on every su
                "on the context tag of the remaining children is {3 -> referral list via parse_refs, 7 -> SASL creds, 10 -> responseName, "
                "11 -> responseValue} as in RFC 4511, each stored to the variable that feeds the matching field of the returned struct; "
                "Tag::Null yields the all-empty success; T2 op_call returns (result with the envelope's controls, exop, creds) of that "
-               "decoded response and every public operation returns the component its signature names; T3 parse_controls: child 0 -> "
-               "controlType, BOOLEAN second child -> criticality = content[0] != 0 then value, OCTET STRING second child -> value with "
-               "criticality false, absent -> (false, None); the known-OID table equals the RFC OIDs; T4 success()/non_error()/equal() "
+               "decoded response and every public operation returns the component its signature names; T3 parse_controls decided as a function by exact literal evaluation: with the content of the [0] Controls element fixed to every "
+               "list of 0..3 (and one of 8) literal controls over the ways criticality and value can be written (each control with an OID and a value of its own; a lone control with every "
+               "BOOLEAN content octet 00..ff, an empty value, every OID of the known-type table) the returned vector holds one entry per element, in the order of the elements (SEQUENCE OF), "
+               "each with controlType = the text of its OID octets, criticality = content octet != 0 (absent: false), value = its octets (absent: None) and the table's entry for its OID "
+               "as recognised type - whatever walks the list (for / while-let over next or pop / drain / index loop / map-collect); the known-OID table equals the RFC OIDs; T4 success()/non_error()/equal() "
                "are decided completely by evaluating them over the finite partition of result codes induced by the constants they "
                "compare with; T9 (C11 H8) the frame decoder interpreted exactly on element trees: a well-formed envelope - without, with an empty, with one / two / any controls - is delivered with its operation and with what parse_controls makes of exactly its controls element. Not decided: equality of arbitrary strings through String::from_utf8 / Vec moves (library semantics).")
 TRUSTED = ['String::from_utf8 / Vec move semantics', 'lber TLV parser above the length reader (C07 B1 / B7)']
@@ -72,78 +74,226 @@ def nths(t):
 def struct_fields(v):
     return dict(v[2]) if v[0] == 'struct' else {}
 
-def check_parse_controls(ctx, f, R='T3'):
-    """The control list decoder (shared by C03 T3 and C19's envelope clause)."""
-    # ------------------------------------------------------------------ T3 parse_controls
-    P = hirq.Body(f, f.body('ldap3::controls_impl::parse_controls'))
-    ctx.analysed['bodies'].add(P.path)
-    pouts = absx.Interp(f, P, unroll=1).run()
-    seen = set()
-    for o in pouts:
-        # the element that one generic control of the list contributes to the result: what a `for` loop over the list pushes,
-        # or what the closure of `map(..).collect()` over the list yields (the returned term is then many(list, elem, value))
-        pushes = [e[2][1] for e in o.st.ev if e[0] == 'call' and e[1].endswith('Vec::<T, A>::push')]
-        if not pushes and o.kind in ('val', 'ret') and o.val[0] == 'many' and o.val[3] != ('skip',):
-            pushes = [o.val[3]]
-        if not pushes:
-            continue
-        ctl = pushes[0]
-        if not (ctl[0] == 'ctor' and ctl[1].endswith('Control') and len(ctl[2]) == 2 and ctl[2][1][0] == 'struct'):
-            ctx.fail(R + '.control-shape', 'push', loc(P.root), 'pushed value is not Control(type, RawControl{..})'); continue
-        known, raw = ctl[2]
-        rf = dict(raw[2])
-        ctype, crit, val = rf.get('ctype'), rf.get('crit'), rf.get('val')
-        def inner(t):
-            """ordinals read from the per-control component cursor (whose base is itself an element of the control list)"""
-            return sorted({x[3] for x in absx.leaves(t, lambda x: x[0] == 'nth') if absx.leaves(x[1], lambda y: y[0] in ('nth', 'elem'))})
-        okt = inner(ctype) == [0] and 'from_utf8' in calls_in(ctype) and 'expect_primitive' in calls_in(ctype)
-        # ... of a generic element of the list handed in (the constructed content of the parameter), not of some other list
-        els = absx.leaves(ctype, lambda x: x[0] == 'elem')
-        okt = okt and bool(els) and all('expect_constructed' in calls_in(x[1]) and absx.leaves(x[1], lambda y: y[0] == 'param') for x in els)
-        def second_pc(pred):
-            return any(t and pred(a) for a, t in o.st.pc)
-        absent = absx.pc_variant(o.st.pc, lambda v: v[0] == 'nth' and v[3] == 1 and inner(v) == [1], 'None') is True
-        def id_is(a, n, name):
-            return a[0] == 'bin' and a[1] == 'Eq' and a[2][0] == 'field' and a[2][2] == 'id' and inner(a[2]) == [1] \
-                and (a[3] == ('lit', n) or a[3] == ('cast', ('ctor', 'Types::' + name, ()), 'u64'))
-        is_bool = second_pc(lambda a: id_is(a, 1, 'Boolean'))
-        is_octet = second_pc(lambda a: id_is(a, 4, 'OctetString'))
-        if absent:
-            case = 'absent'
-            ok = crit == ('lit', False) and val == ('ctor', 'None', ())
-        elif is_bool:
-            idx = absx.leaves(crit, lambda x: x[0] == 'index')
-            okc = crit[0] == 'not' and len(idx) == 1 and idx[0][2] == ('lit', 0) and inner(idx[0][1]) == [1] and crit[1] == ('bin', 'Eq', idx[0], ('lit', 0))
-            if val == ('ctor', 'None', ()):
-                case = 'boolean'
-                ok = okc and absx.pc_variant(o.st.pc, lambda v: v[0] == 'nth' and v[3] == 2, 'None') is True
-            else:
-                case = 'boolean+value'
-                ok = okc and val[0] == 'ctor' and val[1] == 'Some' and inner(val) == [2] and 'expect_primitive' in calls_in(val)
-        elif is_octet:
-            case = 'octet-string'
-            ok = crit == ('lit', False) and val[0] == 'ctor' and val[1] == 'Some' and inner(val) == [1] and 'expect_primitive' in calls_in(val)
-        else:
-            continue
-        seen.add(case)
-        ctx.add(R + '.control-type', case, loc(P.root), okt, 'controlType is not the UTF-8 content of child 0')
-        ctx.add(R + '.criticality-and-value', case, loc(P.root), ok, 'case %s: crit=%s val=%s' % (case, absx.fmt(crit)[:80], absx.fmt(val)[:80]))
-        gets = [x for x in absx.leaves(known, lambda x: x[0] == 'call' and x[1].endswith('HashMap::<K, V, S, A>::get'))]
-        okk = known[0] == 'call' and len(gets) == 1 and gets[0][2][1] == ctype and 'CONTROLS' in str(gets[0][2][0])
-        ctx.add(R + '.known-type-lookup', case, loc(P.root), okk, 'the recognised control type is not looked up in the OID table with this control\'s own type')
-    for need in ('absent', 'boolean', 'boolean+value', 'octet-string'):
-        ctx.add(R + '.coverage', need, loc(P.root), need in seen, 'no path of parse_controls for a second component that is ' + need)
-    # the OID table
+# ---------------------------------------------------------------------------------------
+# T3 (C19: Z) - the response-control list decoder, decided as a FUNCTION by exact literal evaluation.
+#
+# RFC 4511 4.1.11:  Controls ::= SEQUENCE OF control Control;  Control ::= SEQUENCE { controlType LDAPOID, criticality BOOLEAN
+# DEFAULT FALSE, controlValue OCTET STRING OPTIONAL }.  The content of the `[0] Controls` element handed to the decoder is fixed to
+# one literal list at a time - every list of 0, 1, 2 and 3 controls over the six ways the two optional components can be written
+# (absent / BOOLEAN TRUE / BOOLEAN FALSE / BOOLEAN TRUE + value / BOOLEAN FALSE + value / value only), each control with an OID
+# and a value of its own, one longer list, single controls with every content octet a BOOLEAN can have, an empty value, every OID
+# of the known-type table and OIDs that are not in it - and the decoder is interpreted on it: the accessors of the tree type
+# inlined, local vectors and iterators tracked element by element (whatever walks the list: `for` over into_iter / drain / iter,
+# `while let` over next / pop, an index loop, map + collect; `absx` options places + exact_seqs), UTF-8 conversion of literal
+# octets and the lookup in the known-type table answered exactly.  There must be exactly one outcome, a vector, and it must hold
+# one entry per element of the list, IN THE ORDER OF THE ELEMENTS (the list is a SEQUENCE OF: ordered), each with the OID, the
+# criticality (content octet != 0; absent: false) and the value (absent: None; present: exactly its octets, empty included) of its
+# own element, and as recognised type the table's entry for that OID.  Nothing of the library is executed.  A decoder the
+# interpreter cannot evaluate to a single literal outcome fails closed (rule <R>.control-list-decided).
+ST_TAG = 'lber::structure::StructureTag'
+def lit_prim(cls, id_, octs):
+    return ('struct', ST_TAG, (('class', ('ctor', 'TagClass::' + cls, ())), ('id', ('lit', id_)), ('payload', ('ctor', 'PL::P', (('lit', octs),)))), None)
+def lit_cons(cls, id_, kids):
+    return ('struct', ST_TAG, (('class', ('ctor', 'TagClass::' + cls, ())), ('id', ('lit', id_)), ('payload', ('ctor', 'PL::C', (('vec', tuple(kids)),)))), None)
+
+CONTROL_CASES = [     # (name, content of the criticality BOOLEAN or None, controlValue or None)
+    ('absent', None, None), ('boolean TRUE', b'\xff', None), ('boolean FALSE', b'\x00', None),
+    ('boolean TRUE + value', b'\xff', b'v\x00\xff'), ('boolean FALSE + value', b'\x00', b'w'), ('value only', None, b'u\x80'),
+]
+OTHER_OIDS = ['1.2.3.4.5', '2.5.4.3', '1.3.6.1.1.12', '0.9.2342.19200300.100.1.1', '1.2.840.113556.1.4.473']      # not in the known-type table
+
+def control_lists():
+    """[(description, [(case name, OID, criticality content | None, value | None), ...])]: the literal lists the decoder is evaluated on"""
+    import itertools
+    pool = []
+    known = sorted(RFC_CONTROL_OIDS.values())
+    for i in range(max(len(known), len(OTHER_OIDS))):
+        pool += [x[i] for x in (OTHER_OIDS, known) if i < len(x)]
+    def mk(cases, rot=0):
+        # every control of a list has an OID of its own and (where it has one) a value of its own: what comes out can be told apart
+        return [(c[0], pool[(rot + i) % len(pool)], c[1], (c[2] + bytes([0x41 + i])) if c[2] is not None else None) for i, c in enumerate(cases)]
+    lists = [('an empty list', [])]
+    k = 0
+    for n in (1, 2, 3):
+        for cs in itertools.product(CONTROL_CASES, repeat=n):
+            k += 1
+            lists.append(('a list of %d control%s' % (n, 's' if n > 1 else ''), mk(cs, k)))
+    lists.append(('a list of 8 controls', mk([CONTROL_CASES[i % 6] for i in (3, 0, 5, 1, 2, 4, 0, 3)], 1)))
+    # every content octet a BOOLEAN can have (X.690 8.2.2: FALSE is zero, TRUE is any non-zero octet), alone and with a value
+    for v in range(256):
+        lists.append(('a list of 1 control', [('boolean %02x' % v, OTHER_OIDS[0], bytes([v]), None)]))
+    for v in (0x01, 0x80):
+        lists.append(('a list of 1 control', [('boolean %02x + value' % v, OTHER_OIDS[1], bytes([v]), b'x')]))
+    lists.append(('a list of 1 control', [('empty value', OTHER_OIDS[2], None, b'')]))
+    lists.append(('a list of 1 control', [('boolean TRUE + empty value', OTHER_OIDS[2], b'\x01', b'')]))
+    for oid in known:
+        lists.append(('a list of 1 control', [('boolean TRUE + value', oid, b'\xff', b'\x30\x00')]))
+    return lists
+
+def control_tree(ctls):
+    kids = []
+    for _case, oid, crit, val in ctls:
+        comp = [lit_prim('Universal', 4, oid.encode())]
+        if crit is not None:
+            comp.append(lit_prim('Universal', 1, crit))
+        if val is not None:
+            comp.append(lit_prim('Universal', 4, val))
+        kids.append(lit_cons('Universal', 16, comp))
+    return lit_cons('Context', 0, kids)
+
+def known_type_table(f):
+    """(initialiser, {variant: OID} as inserted, {OID: variant} the table holds, exact) - `exact`: the initialiser does nothing to the
+    map but insert constant pairs (a later insert of the same key replaces the earlier one), so the table holds exactly those"""
     init = [h for p, h in f.hir.items() if p.startswith('<ldap3::controls_impl::CONTROLS as core::ops::deref::Deref>::deref::__static_ref_initialize')]
     init = anchors.one('CONTROLS initialiser', init)
-    got = {}
+    got, holds, exact = {}, {}, True
     for n, c in walk(init['body']):
         if n['k'] == 'MethodCall' and n['name'] == 'insert' and len(n['args']) == 2:
             oid = hirq.const_eval(f, n['args'][0])
             v = hirq.short_def(n['args'][1].get('ctor_of') or n['args'][1].get('def') or '')
             got[v] = oid
-    for k in sorted(set(got) | set(RFC_CONTROL_OIDS)):
-        ctx.add(R + '.oid-table', k, loc(init['body']), got.get(k) == RFC_CONTROL_OIDS.get(k), 'OID table: %s -> %s, RFCs: %s' % (k, got.get(k), RFC_CONTROL_OIDS.get(k)))
+            if isinstance(oid, str) and v:
+                holds[oid] = v
+            else:
+                exact = False
+        elif n['k'] == 'MethodCall' or (n['k'] == 'Call' and not str(callee_of(n) or '').endswith('::new')):
+            exact = False
+    return init, got, holds, exact
+
+def check_parse_controls(ctx, f, R='T3'):
+    """The control list decoder (shared by C03 T3 and C19's envelope clause)."""
+    P = hirq.Body(f, f.body('ldap3::controls_impl::parse_controls'))
+    ctx.analysed['bodies'].add(P.path)
+    L = loc(P.root)
+    init, got_table, holds, table_exact = known_type_table(f)
+    params = [b for b, d in P.defs.items() if d['kind'] == 'param' and not d['proj']]
+    if len(params) != 1:
+        ctx.fail(R + '.control-list-decided', 'parameter', L, 'parse_controls does not take the Controls element as its one parameter'); return
+    inl = lambda c: c.startswith('lber::structure::') or c.startswith('<lber::structure::') or c.startswith('lber::common::')
+    def library(I, cal, args, node, st):
+        name = cal.rsplit('::', 1)[-1]
+        if cal in ('alloc::string::String::from_utf8', 'core::str::converts::from_utf8') and len(args) == 1 and args[0][0] == 'lit' and isinstance(args[0][1], bytes):
+            # from_utf8 of known octets: Ok(the text they encode) when they are well-formed UTF-8, Err otherwise (its definition)
+            try:
+                return [absx.Out('val', ('ctor', 'Ok', (('lit', args[0][1].decode('utf-8')),)), st)]
+            except UnicodeDecodeError:
+                return [absx.Out('val', ('ctor', 'Err', (('unk', 'FromUtf8Error'),)), st)]
+        if table_exact and name == 'get' and 'HashMap' in cal and len(args) == 2 and args[0] == ('const', 'ldap3::controls_impl::CONTROLS') \
+                and args[1][0] == 'lit' and isinstance(args[1][1], str):
+            # the known-type table holds exactly the constant pairs its initialiser inserts (known_type_table): get(k) is Some(v) for
+            # the pair (k, v) and None for any other key
+            v = holds.get(args[1][1])
+            return [absx.Out('val', ('ctor', 'Some', (('ctor', v, ()),)) if v is not None else ('ctor', 'None', ()), st)]
+        return None
+    class Budgeted(absx.Interp):
+        # a decoder the models do not evaluate exactly forks on every read of every element: give up (fail closed) instead of enumerating
+        steps = 0
+        def ev(self, e, st):
+            self.steps += 1
+            if self.steps > 8000:      # (the decoder as it stands takes about 550 on the longest list)
+                raise absx.TooManyPaths()
+            return absx.Interp.ev(self, e, st)
+    def decode(ctls):
+        I = Budgeted(f, P, summaries=[library], unroll=len(ctls) + 2, inline=inl, combinators=True, places=True)
+        I.exact_seqs = True
+        env = I.param_env()
+        env[params[0]] = control_tree(ctls)
+        try:
+            return [o for o in I.run(env=env) if o.kind in ('val', 'ret', 'div', 'loop')]
+        except absx.TooManyPaths:
+            return None
+    NONE = ('ctor', 'None', ())
+    def entry(t):
+        """(oid, crit, val, known) of one decoded entry Control(known, RawControl { ctype, crit, val }); None when it is not that"""
+        if not (t[0] == 'ctor' and t[1].endswith('Control') and len(t[2]) == 2 and t[2][1][0] == 'struct'):
+            return None
+        rf = dict(t[2][1][2])
+        return rf.get('ctype', ('unk',)), rf.get('crit', ('unk',)), rf.get('val', ('unk',)), t[2][0]
+    def show(t):
+        if t == NONE:
+            return 'None'
+        if t[0] == 'ctor' and t[1] == 'Some' and len(t[2]) == 1 and t[2][0][0] == 'lit' and isinstance(t[2][0][1], bytes):
+            return 'Some(%s)' % (t[2][0][1].hex() or '""')
+        return absx.fmt(t)[:50]
+    undecided, order, shape, ctype_bad, cv_bad, known_bad = [], {}, [], {}, {}, {}
+    n_eval = 0
+    seen_desc = []
+    for desc, ctls in control_lists():
+        if desc not in seen_desc:
+            seen_desc.append(desc)
+        outs = decode(ctls)
+        n_eval += 1
+        what = '[%s]' % ', '.join('%s (%s)' % (c[1], c[0]) for c in ctls)
+        if outs is None or len(outs) != 1 or outs[0].kind not in ('val', 'ret') or outs[0].val[0] != 'vec':
+            kinds = 'too many paths' if outs is None else ', '.join(sorted('panic' if o.kind == 'div' else 'loop not finished' if o.kind == 'loop' else absx.fmt(o.val)[:40] for o in outs)) or 'no outcome'
+            undecided.append('%s: %s' % (what, kinds))
+            if len(undecided) >= 12:
+                break       # not a decoder this evaluation understands: the rule below fails closed, the rest would say the same
+            continue
+        ents = [entry(t) for t in outs[0].val[1]]
+        if any(x is None for x in ents):
+            shape.append('%s: %s' % (what, absx.fmt(outs[0].val)[:80])); continue
+        want = [c[1] for c in ctls]
+        oids = [x[0][1] if x[0][0] == 'lit' and isinstance(x[0][1], str) else None for x in ents]
+        if any(o is None or o not in want for o in oids) or len(set(oids)) != len(oids):
+            # an entry whose type is not the OID of any element of the list (or two entries with the type of one element)
+            for i, x in enumerate(ents):
+                if oids[i] is None or oids[i] not in want or oids.index(oids[i]) != i:
+                    case = ctls[i][0] if i < len(ctls) else 'beyond the list'
+                    ctype_bad.setdefault(case, []).append('%s decodes to entry %d with controlType %s' % (what, i, absx.fmt(x[0])[:50]))
+            continue
+        if oids != want:
+            if sorted(oids) == sorted(want):
+                how = 'comes out reversed' if oids == want[::-1] else 'comes out in another order'
+            else:
+                missing = [i for i, o in enumerate(want) if o not in oids]
+                how = 'comes out with %d: the control%s at position%s %s (counted from 0) %s dropped%s' % (
+                    len(oids), 's' if len(missing) > 1 else '', 's' if len(missing) > 1 else '', ', '.join(map(str, missing)), 'are' if len(missing) > 1 else 'is',
+                    '' if [o for o in want if o in oids] == oids else ' and the rest comes out in another order')
+            order.setdefault(desc, []).append('%s %s: encoded %s, decoded [%s]' % (desc, how, what, ', '.join(oids)))
+        # every entry against the element it was decoded from (found by its OID, wherever it ended up)
+        for x in ents:
+            case, oid, crit, val = ctls[want.index(x[0][1])]
+            exp_crit = ('lit', crit is not None and crit[0] != 0)
+            exp_val = ('ctor', 'Some', (('lit', val),)) if val is not None else NONE
+            if x[1] != exp_crit or x[2] != exp_val:
+                cv_bad.setdefault(case, []).append('in %s the control %s decodes to criticality %s, value %s; encoded: criticality %s, value %s' % (
+                    what, oid, absx.fmt(x[1])[:40], show(x[2]), ('BOOLEAN %s' % crit.hex()) if crit is not None else 'absent (FALSE)', show(exp_val)))
+            exp_known = ('ctor', 'Some', (('ctor', holds[oid], ()),)) if oid in holds else NONE
+            if x[3] != exp_known:
+                known_bad.setdefault(holds.get(oid, 'an OID that is not in the table'), []).append('in %s the control %s is recognised as %s, the known-type table says %s' % (
+                    what, oid, absx.fmt(x[3])[:60], absx.fmt(exp_known)[:60]))
+    ctx.add(R + '.control-list-decided', 'literal lists', L, not undecided and not shape,
+            'the control list decoder could not be evaluated to one decoded list on %d of %d literal control lists (the interpreter does not understand what walks the list, or the decoder '
+            'panics on / does not finish a well-formed list): %s' % (len(undecided) + len(shape), n_eval, '; '.join((undecided + shape)[:3])[:600]))
+    for desc in seen_desc:
+        bad = order.get(desc, [])
+        ctx.add(R + '.control-list-order', desc, L, not bad,
+                'a control list does not survive the envelope unchanged (RFC 4511 4.1.11: Controls ::= SEQUENCE OF control - ordered, one entry per element): %s%s'
+                % ('; '.join(bad[:2])[:700], ' (and %d more lists)' % (len(bad) - 2) if len(bad) > 2 else ''))
+    cases = []
+    for _d, ctls in control_lists():
+        for c in ctls:
+            if c[0] not in cases:
+                cases.append(c[0])
+    bool_cases = [c for c in cases if c.startswith('boolean ') and len(c) == 10]       # 'boolean xx': one obligation for the 256 contents
+    for case in [c for c in cases if c not in bool_cases] + ['boolean content octets 00..ff']:
+        members = bool_cases if case.startswith('boolean content') else [case]
+        bad = [m for c in members for m in ctype_bad.get(c, [])]
+        ctx.add(R + '.control-type', case, L, not bad, 'controlType is not the text of the OID octets of the control\'s own first component: %s' % '; '.join(bad[:2])[:600])
+        bad = [m for c in members for m in cv_bad.get(c, [])]
+        ctx.add(R + '.criticality-and-value', case, L, not bad,
+                'criticality / controlValue are not those of the control\'s own element (criticality = content octet != 0, absent: false; value absent: None, present: its octets), %d list(s): %s'
+                % (len(bad), '; '.join(bad[:2])[:700]))
+    for k in sorted(set(holds.values()) | {'an OID that is not in the table'}):
+        bad = known_bad.get(k, [])
+        ctx.add(R + '.known-type-lookup', k, L, table_exact and not bad,
+                'the recognised control type is not the known-type table\'s entry for this control\'s own OID: %s' % ('; '.join(bad[:2])[:600] if bad else 'the table\'s initialiser does more than insert constant pairs: its content is not known'))
+    if len(undecided) < 12:
+        ctx.floor(R, 'literal control lists the list decoder was interpreted on', n_eval, 500)
+    # the OID table
+    for k in sorted(set(got_table) | set(RFC_CONTROL_OIDS)):
+        ctx.add(R + '.oid-table', k, loc(init['body']), got_table.get(k) == RFC_CONTROL_OIDS.get(k), 'OID table: %s -> %s, RFCs: %s' % (k, got_table.get(k), RFC_CONTROL_OIDS.get(k)))
 
 
 
